@@ -66,6 +66,8 @@ pub enum Target {
     Tx(usize),
     /// k-th most recently finished request
     Fin(usize),
+    /// the k-th successfully sent request of this trace (1-based), outstanding or not
+    Sent(usize),
     Unknown,
 }
 
@@ -124,6 +126,7 @@ pub struct Driver {
     /// driver's own bookkeeping: ids in send order that have not been seen to finish
     pub sent: Vec<[u8; 12]>,
     pub finished: Vec<[u8; 12]>,
+    pub all_sent: Vec<[u8; 12]>,
     pub t0: HashMap<[u8; 12], u64>,
     pub lines: Vec<Value>,
     pub dead: bool,
@@ -212,6 +215,7 @@ impl Driver {
             first_pkt: HashMap::new(),
             sent: Vec::new(),
             finished: Vec::new(),
+            all_sent: Vec::new(),
             t0: HashMap::new(),
             lines: Vec::new(),
             dead: false,
@@ -546,6 +550,7 @@ impl Driver {
                         let raw = *id.as_bytes();
                         let n = self.idn(&raw);
                         self.sent.push(raw);
+                        self.all_sent.push(raw);
                         self.t0.insert(raw, self.now_us);
                         // keep every boundary representable in 31 bits of microseconds
                         if self.boundaries().iter().any(|(_, _, hi, _)| *hi > 1_900_000_000) {
@@ -632,6 +637,7 @@ impl Driver {
             Target::Fin(k) if !self.finished.is_empty() => {
                 (self.finished[k % self.finished.len()], "fin")
             }
+            Target::Sent(k) if *k >= 1 && *k <= self.all_sent.len() => (self.all_sent[*k - 1], "sent"),
             _ => {
                 let mut id = [0u8; 12];
                 self.rng.fill(&mut id);
@@ -675,6 +681,12 @@ impl Driver {
         };
         if m.fp == "misplaced" {
             items.push(Item::Fp(false));
+        }
+        if let Some(rest) = m.auth.strip_prefix("gen:") {
+            // generic form "gen:<mi>,<sha>" with each of absent | valid | invalid
+            let mut it = rest.split(',');
+            match it.next().unwrap_or("absent") { "valid" => items.push(Item::Mi(key.clone(), false)), "invalid" => items.push(Item::Mi(key.clone(), true)), _ => {} }
+            match it.next().unwrap_or("absent") { "valid" => items.push(Item::Sha(key.clone(), false)), "invalid" => items.push(Item::Sha(key.clone(), true)), _ => {} }
         }
         match m.auth.as_str() {
             "mi" => items.push(Item::Mi(key.clone(), false)),
